@@ -265,7 +265,7 @@ class Effects:
 
 
 # ---------------------------------------------------------------------------
-def parse_time_functions(ctx, include_normalizers=True, with_loading=True):
+def parse_time_functions(ctx, include_normalizers=True, with_loading=True, only=None):
     """Functions reachable from the non-caching parse / tokenize / issue-listing entry points.
     Calls of Grammar.parse that are only reachable under a true `cache` / `diff_cache` test are dropped."""
     prog, cg = ctx.prog, ctx.cg
@@ -292,6 +292,8 @@ def parse_time_functions(ctx, include_normalizers=True, with_loading=True):
     if include_normalizers:
         names += [('parso/grammar.py', 'Grammar.iter_errors'), ('parso/grammar.py', 'Grammar._get_normalizer_issues'),
                   ('parso/grammar.py', 'Grammar.refactor'), ('parso/grammar.py', 'Grammar._normalize')]
+    if only is not None:
+        names = list(only)
     todo = [prog.func(*k).key for k in names]
     seen = set()
     prev = {}
@@ -323,12 +325,12 @@ ALLOWED_SHARED_WRITES = {
 }
 
 
-def eff_1(ctx, rep):
+def eff_1(ctx, rep, only=None, minimum=60):
     rep.rule('EFF-1', 'from the non-caching parse / tokenize / issue-listing entry points the only reachable writes to '
                       'shared objects (module globals, class-level containers, grammar / table / config instances, mutable '
                       'defaults) are the reasoned write-once memos')
     eff = Effects(ctx)
-    reach, prev = parse_time_functions(ctx)
+    reach, prev = parse_time_functions(ctx, only=only)
     rep.stat('shared_classes', sorted(c.name for c in eff.shared_classes))
     rep.stat('shared_module_globals', sorted('%s:%s' % k for k in eff.shared_globals))
     rep.stat('exclusive_shared_attributes', sorted(eff.exclusive))
@@ -375,7 +377,7 @@ def eff_1(ctx, rep):
                                 bad.append(n)
         rep.ob('EFF-1', f.mod.rel, f.qual, 'mutable default %s' % p, not bad,
                'the shared default object of parameter %s is mutated: %s' % (p, norm(bad[0])) if bad else '')
-    rep.minimum('EFF-1', 60)
+    rep.minimum('EFF-1', minimum)
     return reach, prev
 
 
@@ -412,8 +414,15 @@ def _set_typed(ctx, f, e, depth=0):
         return True
     if isinstance(e, ast.Call) and isinstance(e.func, ast.Name) and e.func.id in ('set', 'frozenset'):
         return True
-    if isinstance(e, ast.BinOp) and isinstance(e.op, (ast.BitOr, ast.BitAnd, ast.Sub)):
-        return _set_typed(ctx, f, e.left, depth + 1) or _set_typed(ctx, f, e.right, depth + 1)
+    def view(x):
+        # dict views: set operators on them give sets
+        return isinstance(x, ast.Call) and isinstance(x.func, ast.Attribute) and x.func.attr in ('keys', 'items') and not x.args
+    if isinstance(e, ast.BinOp) and isinstance(e.op, (ast.BitOr, ast.BitAnd, ast.Sub, ast.BitXor)):
+        return _set_typed(ctx, f, e.left, depth + 1) or _set_typed(ctx, f, e.right, depth + 1) or view(e.left) or view(e.right)
+    if isinstance(e, ast.Call) and isinstance(e.func, ast.Attribute) \
+            and e.func.attr in ('intersection', 'union', 'difference', 'symmetric_difference', 'copy') \
+            and (_set_typed(ctx, f, e.func.value, depth + 1) or view(e.func.value)):
+        return True
     if isinstance(e, ast.Name):
         if ctx.cg._is_local(f, e.id):
             vals = []
@@ -562,3 +571,122 @@ def eff_5(ctx, rep):
             isinstance(t, ast.Attribute) and not (isinstance(t.value, ast.Name) and t.value.id == sn) for t in n.targets)]
         rep.ob('EFF-5', m.mod.rel, m.qual, 'state initialised on the instance', not cls_writes,
                'per-walk state stored outside the normalizer instance: %s' % (norm(cls_writes[0]) if cls_writes else ''))
+
+
+# ---------------------------------------------------------------------------
+# MEMO-1: the key of a write-once memo determines the stored value
+# ---------------------------------------------------------------------------
+class _Deps:
+    """Which parameters of f an expression depends on (flow-insensitive over the locals of f), in a *world* that
+    fixes some parameters to 'given' (truthy) or 'absent' (falsy): `p or default` is p when given, default otherwise."""
+
+    def __init__(self, f, world):
+        self.f, self.world = f, world
+        self.params = set(f.all_params())
+        self.defs = {}
+        for n in walk_own(f.node):
+            if isinstance(n, ast.Assign):
+                for t in n.targets:
+                    self._bind(t, n.value)
+            elif isinstance(n, ast.AnnAssign) and n.value is not None:
+                self._bind(n.target, n.value)
+            elif isinstance(n, ast.AugAssign):
+                self._bind(n.target, n.value)
+            elif isinstance(n, (ast.For, ast.AsyncFor)):
+                self._bind(n.target, n.iter)
+            elif isinstance(n, (ast.With, ast.AsyncWith)):
+                for it in n.items:
+                    if it.optional_vars is not None:
+                        self._bind(it.optional_vars, it.context_expr)
+            elif isinstance(n, ast.NamedExpr):
+                self._bind(n.target, n.value)
+        self._memo = {}
+
+    def _bind(self, target, value):
+        for x in ast.walk(target):
+            if isinstance(x, ast.Name) and isinstance(x.ctx, ast.Store):
+                self.defs.setdefault(x.id, []).append(value)
+
+    def of_name(self, name, stack=()):
+        if name in stack:
+            return set()
+        if name in self._memo:
+            return self._memo[name]
+        out = set()
+        if name in self.params and self.world.get(name) != 'absent':
+            out.add(name)
+        for v in self.defs.get(name, []):
+            out |= self.of(v, stack + (name,))
+        if not stack:
+            self._memo[name] = out
+        return out
+
+    def of(self, e, stack=()):
+        if isinstance(e, ast.BoolOp) and isinstance(e.op, ast.Or) and isinstance(e.values[0], ast.Name) \
+                and e.values[0].id in self.world:
+            if self.world[e.values[0].id] == 'given':
+                return self.of(e.values[0], stack)
+            rest = e.values[1:]
+            out = set()
+            for v in rest:
+                out |= self.of(v, stack)
+            return out
+        if isinstance(e, ast.Name):
+            return self.of_name(e.id, stack)
+        out = set()
+        for c in ast.iter_child_nodes(e):
+            if isinstance(c, (ast.expr, ast.comprehension, ast.keyword, ast.FormattedValue)):
+                out |= self.of(c, stack)
+        return out
+
+
+def memo_1(ctx, rep):
+    rep.rule('MEMO-1', 'for every write-once memo in a module-level dict (M.setdefault(K, V) / M[K] = V with V computed in '
+                       'the function) the key depends on every parameter the stored value depends on - case by case for '
+                       'parameters used as `p or default` - so that an entry can never be served for other arguments')
+    eff = Effects(ctx)
+    n_sites = 0
+    for key in sorted(ALLOWED_SHARED_WRITES):
+        f = ctx.prog.funcs.get(key)
+        if f is None:
+            raise AnalysisError('anchor vanished: memo function %s:%s' % key)
+        stores = []
+        for n, why in eff.shared_writes(f):
+            if not why.startswith('module global'):
+                continue
+            if isinstance(n, ast.Call) and n.func.attr == 'setdefault' and len(n.args) == 2:
+                stores.append((n, n.args[0], n.args[1]))
+            elif isinstance(n, ast.Assign) and any(isinstance(t, ast.Subscript) for t in n.targets) \
+                    and all(isinstance(t, (ast.Subscript, ast.Name)) for t in n.targets):
+                # M[K] = V, possibly chained with a plain local:  M[K] = result = V
+                for t in n.targets:
+                    if isinstance(t, ast.Subscript):
+                        stores.append((n, t.slice, n.value))
+            else:
+                rep.ob('MEMO-1', key[0], key[1], norm(n), False, 'write to a shared dict that is not a keyed store')
+        optional = sorted({n.values[0].id for n in walk_own(f.node)
+                           if isinstance(n, ast.BoolOp) and isinstance(n.op, ast.Or) and isinstance(n.values[0], ast.Name)
+                           and n.values[0].id in f.all_params()})
+        worlds = [{}]
+        for p in optional:
+            worlds = [dict(w, **{p: s}) for w in worlds for s in ('given', 'absent')]
+        for n, k, v in stores:
+            n_sites += 1
+            if isinstance(v, ast.Name) and v.id in f.all_params() and not _Deps(f, {}).defs.get(v.id):
+                rep.skip('MEMO-1', key[0], key[1], norm(n), 'the value is handed in by the caller (a put, not a memo)')
+                continue
+            bad = None
+            for w in worlds:
+                d = _Deps(f, w)
+                dk, dv = d.of(k), d.of(v)
+                if not dv <= dk:
+                    bad = (w, sorted(dv - dk), sorted(dk))
+                    break
+            case = ''
+            if bad and bad[0]:
+                case = ' when ' + ', '.join('%s is %s' % (p, s) for p, s in sorted(bad[0].items()))
+            rep.ob('MEMO-1', key[0], key[1], 'memo store %s' % norm(n), bad is None,
+                   'the stored value depends on %s, the key only on %s%s: a later call with another value of %s is served '
+                   'the entry computed for the first one' % (bad[1], bad[2], case, bad[1]) if bad else '',
+                   reason='key covers every parameter the value depends on (%d case(s))' % len(worlds))
+    rep.minimum('MEMO-1', 2, 'the token-collection memo and the grammar memo')
